@@ -6,7 +6,7 @@ from props.c06 import guard_drop_blocks
 KEEP = [  # private helpers the rules name (kept as functions); every other non-exported, non-trait function is spliced into its callers
     "AtomicBucketInstant::clear_with", "AtomicBucketInstant::new", "Block::new", "Block::push",
     "CompositeKeyName::new", "Generational::new", "Inner::drain_histograms_to_distributions", "Inner::get_recent_metrics",
-    "Inner::new", "Inner::render", "Inner::run_upkeep", "MetricKindMask::value",
+    "Inner::new", "Inner::render", "MetricKindMask::value",
     "PrometheusRecorder::add_description_if_missing", "Reservoir::drain", "Reservoir::push",
 ]
 TITLE = "C07 Prometheus output reports exactly what was recorded, each sample once."
@@ -290,14 +290,13 @@ def run(ctx):
                 chk.ob("C07.f", f.path, ok, f"registry.get_or_create_{k}(key, clone-into-handle)" if ok else f"register_{k} does not obtain the handle from registry.get_or_create_{k}(key)", f.loc())
                 kind_consistent(chk, "C07.f", f, k)
     hd = "metrics_exporter_prometheus::recorder::PrometheusHandle"
-    for name, inner in (("render", "Inner::render"), ("run_upkeep", "Inner::run_upkeep")):
-        f = (p.method(hd, name) or [None])[0]
-        if f:
-            cs = [c for c in nonforeign_calls(f) if c.is_(inner)]
-            chk.ob("C07.f", f.path, len(cs) == 1, f"{name}() = self.inner.{name}()", f.loc(), nontrivial=False)
-    ru = (p.method(INNER, "run_upkeep") or [None])[0]
+    f = (p.method(hd, "render") or [None])[0]
+    if f:
+        cs = [c for c in nonforeign_calls(f) if c.is_("Inner::render")]
+        chk.ob("C07.f", f.path, len(cs) == 1, "render() = self.inner.render()", f.loc(), nontrivial=False)
+    ru = (p.method(hd, "run_upkeep") or [None])[0]
     if ru:
-        cs = nonforeign_calls(ru)
+        cs = [c for c in nonforeign_calls(ru) if not c.is_("Deref::deref", "AsRef::as_ref")]
         ok = len(cs) == 1 and cs[0].is_("Inner::drain_histograms_to_distributions")
         chk.ob("C07.f", ru.path, ok, "run_upkeep only drains histograms into distributions" if ok else f"run_upkeep calls {[callee_method_name(c) for c in cs]}", ru.loc())
 
